@@ -1,5 +1,6 @@
 // Engine A: plan interpreter and seeded plan generator.
 #include "run.h"
+#include "textarg.h"
 #include <algorithm>
 #include <set>
 
@@ -89,7 +90,7 @@ RunResult run_plan(const Plan &plan, Stats *total, bool want_allocs) {
 // ------------------------------------------------------------------ generator
 static uint32_t draw_len(Rng &r, unsigned limit, unsigned bias) {
     // bias 0 uniform over classes, 1 limit-heavy, 2 long-heavy
-    static const int W[3][12] = {{2, 2, 1, 2, 3, 3, 3, 2, 1, 2, 2, 1}, {1, 1, 1, 3, 6, 6, 5, 2, 1, 1, 1, 1}, {1, 1, 0, 1, 2, 3, 3, 3, 2, 4, 4, 3}};
+    static const int W[3][13] = {{2, 2, 1, 2, 3, 3, 3, 2, 1, 2, 2, 1, 1}, {1, 1, 1, 3, 6, 6, 5, 2, 1, 1, 1, 1, 1}, {1, 1, 0, 1, 2, 3, 3, 3, 2, 4, 4, 3, 3}};
     int tot = 0; for (int w : W[bias % 3]) tot += w;
     int x = (int)r.below((uint32_t)tot), k = 0;
     while (x >= W[bias % 3][k]) { x -= W[bias % 3][k]; ++k; }
@@ -105,7 +106,8 @@ static uint32_t draw_len(Rng &r, unsigned limit, unsigned bias) {
     case 8: return 2 * limit + 1 + r.below(8);
     case 9: return 30 + r.below(40);
     case 10: return 90 + r.below(40);
-    default: return 550 + r.below(100);
+    case 11: return 550 + r.below(100);
+    default: return 250 + r.below(13);      // around 256: the in-object capacity of the string_stream that formatting and conversions go through
     }
 }
 static uint32_t draw_stream_len(Rng &r) {
@@ -236,6 +238,14 @@ Plan gen_plan(int prop, uint64_t runseed) {
         if (alloc_rate && alloc_faultable(o.kind) && r.below(alloc_rate) == 0) {
             o.fault |= F_ALLOC;
             o.fa = 1 + (r.below(3) ? 0 : r.below(3) ? r.below(3) : r.below(12));
+        }
+        if (corrupt_rate && (o.kind == S_CONSTRUCT || o.kind == S_ASSIGN || o.kind == S_SET) && r.below(12) == 0) {
+            // a pair: build a char buffer from corrupted text of a chosen size class, then hand exactly that buffer to the string operation
+            // (as lvalue or rvalue) - otherwise "rvalue buffer + invalid + heap-sized" needs three independent draws to line up
+            Op b; b.kind = B_NEW_PTRLEN; b.t = 0; b.a = r.below(1 << 16); b.b = draw_len(r, 16, bias); b.fault = F_CORRUPT; b.fc = r.below(1 << 24);
+            Op t = o;      // (copy: the push_back below invalidates the reference)
+            t.fault &= ~F_CORRUPT; t.d = (r.below(3) ? (uint32_t)SK_CBUF_R : (uint32_t)SK_CBUF_L) | (r.below(3) << 8) | (1u << 16);
+            p.ops.back() = b; p.ops.push_back(t);
         }
     }
     p.k.strict = (corrupt_rate || alloc_rate) ? 0 : 1;
